@@ -1,6 +1,6 @@
 (* C16 — property theorems only (statements pinned in Pins_C16.v). *)
 From Coq Require Import List Arith Bool.
-From SV Require Import c15.Conc c15.Model_C15 c16.Model_C16 c16.Proofs_C16 c16.Proofs_C16_Fifo gen.Gen_C16.
+From SV Require Import c15.Conc c15.Model_C15 c16.Model_C16 c16.Proofs_C16 c16.Proofs_C16_Fifo c16.Proofs_C16_Live c16.Proofs_C16_Join gen.Gen_C16.
 Import ListNotations.
 
 (* For every number of threads, every script and every schedule of the repaired handshake: if some
@@ -41,6 +41,50 @@ Theorem C16_channel_fifo_per_sender : forall cfg progs sched c from,
   let s := sh (run cfg sched (init progs)) in
   sent_seq s c from = recv_seq s c from ++ queue_seq s c from.
 Proof. exact channel_fifo_init. Qed.
+
+(* Liveness.  Fairness: an infinite schedule f : nat -> tid in which every thread id below the thread count occurs
+   infinitely often (Conc.fair); a scheduled thread that has no enabled step is skipped, so this is weak fairness of
+   the system.  For every number of threads, every spawn-free script (the set of registered threads is fixed),
+   every reachable world in which thread h is inside a stop-the-world section, and every fair schedule, the section
+   ends.  Variant: 7 * (remaining protocol steps of the stopper) + sum over threads of (flag set: steps left before
+   the thread is parked or blocked published; flag not set: 6). *)
+Theorem C16_stop_terminates : forall progs sched h f,
+  no_spawn_progs progs = true ->
+  let w := run cfg_fixed sched (init_all progs) in
+  is_stw (pc (th w h)) = true ->
+  fair (length progs) f ->
+  exists k, is_stw (pc (th (run_stream cfg_fixed f k w) h)) = false.
+Proof. exact stop_terminates_init_all. Qed.
+
+Example C16_stop_terminates_nonvacuous :
+  fair 3 rr3 /\ no_spawn_progs live_progs = true /\
+  is_stw (pc (th (run cfg_fixed live_sched (init_all live_progs)) 0)) = true /\
+  is_stw (pc (th (run_stream cfg_fixed rr3 60 (run cfg_fixed live_sched (init_all live_progs))) 0)) = false.
+Proof. split; [exact rr3_fair | exact live_example]. Qed.
+
+(* The spawn-free hypothesis is needed for the code as it is: a thread registered after stop_threads has passed is
+   never flagged, and the stopper stays blocked for as long as that thread runs without entering a safepoint. *)
+Theorem C16_stop_delayed_by_late_registration :
+  let w := run cfg_fixed late_sched (init late_progs) in
+  pc (th w 2) = Stw (SWait 1 1) /\ reg (th w 1) = true /\ paused (th w 1) = false /\
+  wstep cfg_fixed 2 w = None /\
+  wstep cfg_fixed 2 (run cfg_fixed (repeat 1 20) w) = None /\ prog (th (run cfg_fixed (repeat 1 20) w) 1) <> [].
+Proof. exact late_registration_delays. Qed.
+
+(* Join handles (any lock discipline, any number of threads and joins, any schedule): a thread's result is delivered
+   at most once, only after that thread finished, only to a thread that took the handle; while a joiner waits nobody
+   else waits for or has received the same result; and once the joined thread finished the delivery step is enabled. *)
+Theorem C16_join_once : forall cfg progs sched,
+  let w := run cfg sched (init progs) in
+  NoDup (map snd (deliv (sh w))) /\
+  (forall joiner j, In (joiner, j) (deliv (sh w)) -> pc (th w j) = Done /\ In j (taken (sh w))) /\
+  (forall u j, pc (th w u) = SpJoin -> head (th w u) = AJoin j ->
+     ~ In j (map snd (deliv (sh w))) /\ forall u', pc (th w u') = SpJoin -> head (th w u') = AJoin j -> u' = u).
+Proof. exact join_once_init. Qed.
+
+Theorem C16_join_delivery_enabled : forall cfg w u j, u < nthreads w -> pc (th w u) = SpJoin -> head (th w u) = AJoin j ->
+  pc (th w j) = Done -> exists w', wstep cfg u w = Some w' /\ deliv (sh w') = (u, j) :: deliv (sh w).
+Proof. exact join_delivery_enabled. Qed.
 
 (* generated facts (coq/gen/Gen_C16.v, regenerated from /repo on every run): the lock discipline the
    source has NOW is the one the theorems above are about, and every heap-lock acquisition / blocking
